@@ -254,3 +254,163 @@ fn bptree_enum_quick() {
 fn bptree_enum_thorough() {
 	bptree_enum_impl(2000, 160, "bptree_enum_thorough");
 }
+
+// ------------------------------------------------------------------------------------------------
+// C19 exploration (bounded, in ONE process; nothing here is under a contract - the guarantee rests on the OS
+// advisory lock): while a store is open on a directory every further open of that directory fails and leaves
+// every file of the directory (except the LOCK file itself) byte-identical; after close() or drop the directory
+// opens again and holds the committed data.
+// Bound (stated): all sequences of <= `maxlen` steps from {open slot 0|1, close slot 0|1, drop slot 0|1,
+// commit through slot 0|1}; two handles on one directory. Other processes / process death are NOT exercised.
+fn dir_state(p: &std::path::Path, out: &mut Vec<(String, Vec<u8>)>) {
+	let mut ents: Vec<_> = std::fs::read_dir(p).map(|r| r.filter_map(|e| e.ok()).collect()).unwrap_or_default();
+	ents.sort_by_key(|e: &std::fs::DirEntry| e.file_name());
+	for e in ents {
+		let path = e.path();
+		if path.is_dir() {
+			dir_state(&path, out);
+		} else if e.file_name() != "LOCK" {
+			out.push((path.to_string_lossy().to_string(), std::fs::read(&path).unwrap_or_default()));
+		}
+	}
+}
+
+#[derive(Clone, Copy, Debug, PartialEq)]
+enum LOp {
+	Open(usize),
+	Close(usize),
+	Drop(usize),
+	Commit(usize),
+}
+
+async fn exclusive_enum_impl(maxlen: usize, name: &str) {
+	let mut alpha = Vec::new();
+	for s in 0..2usize {
+		alpha.extend_from_slice(&[LOp::Open(s), LOp::Close(s), LOp::Drop(s), LOp::Commit(s)]);
+	}
+	let mut cases = 0u64;
+	let mut nontrivial = 0u64;
+	let mut failures: Vec<String> = Vec::new();
+	let mut samples: Vec<String> = Vec::new();
+	for len in 1..=maxlen {
+		for code in 0..alpha.len().pow(len as u32) {
+			let mut ops = Vec::new();
+			let mut x = code;
+			for _ in 0..len {
+				ops.push(alpha[x % alpha.len()]);
+				x /= alpha.len();
+			}
+			cases += 1;
+			let dir = tempdir::TempDir::new("verif_c19").unwrap();
+			let mut slots: [Option<crate::Tree>; 2] = [None, None];
+			let mut model: std::collections::BTreeMap<Vec<u8>, Vec<u8>> = Default::default();
+			let mut bad: Option<String> = None;
+			let mut refused = false;
+			for (i, op) in ops.iter().enumerate() {
+				match *op {
+					LOp::Open(s) => {
+						if slots[s].is_some() {
+							continue;
+						}
+						let other_live = slots[1 - s].is_some();
+						let mut before = Vec::new();
+						if other_live {
+							dir_state(dir.path(), &mut before);
+						}
+						let mut r = crate::TreeBuilder::new().with_path(dir.path().to_path_buf()).build();
+						// a dropped (not closed) store lets go of the directory when its background tasks have wound
+						// down: allow it 3 s before calling the directory stuck
+						let mut waited_ms = 0;
+						while r.is_err() && !other_live && waited_ms < 3000 {
+							tokio::time::sleep(std::time::Duration::from_millis(50)).await;
+							waited_ms += 50;
+							r = crate::TreeBuilder::new().with_path(dir.path().to_path_buf()).build();
+						}
+						match (r, other_live) {
+							(Ok(_t), true) => bad = Some(format!("step {i}: a second store opened the directory while the first one is still open")),
+							(Err(_), true) => {
+								refused = true;
+								let mut after = Vec::new();
+								dir_state(dir.path(), &mut after);
+								if before != after {
+									bad = Some(format!("step {i}: the refused open changed files of the directory"));
+								}
+							}
+							(Ok(t), false) => {
+								// holds the committed data
+								let rd = t.begin().unwrap();
+								for (k, v) in &model {
+									if rd.get(k.clone()).unwrap_or(None).as_ref() != Some(v) {
+										bad = Some(format!("step {i}: after reopening, key {} does not read its committed value", String::from_utf8_lossy(k)));
+									}
+								}
+								drop(rd);
+								slots[s] = Some(t);
+							}
+							(Err(e), false) => bad = Some(format!("step {i}: open failed although no store is open on the directory: {e}")),
+						}
+					}
+					LOp::Close(s) => {
+						if let Some(t) = slots[s].take() {
+							if let Err(e) = t.close().await {
+								bad = Some(format!("step {i}: close failed: {e}"));
+							}
+						}
+					}
+					LOp::Drop(s) => {
+						slots[s] = None;
+					}
+					LOp::Commit(s) => {
+						if let Some(t) = slots[s].as_ref() {
+							let k = format!("k{i}").into_bytes();
+							let mut tx = t.begin().unwrap();
+							tx.set_durability(crate::Durability::Immediate);
+							tx.set(k.clone(), b"v".to_vec()).unwrap();
+							match tx.commit().await {
+								Ok(()) => {
+									model.insert(k, b"v".to_vec());
+								}
+								Err(e) => bad = Some(format!("step {i}: commit failed: {e}")),
+							}
+						}
+					}
+				}
+				if bad.is_some() {
+					break;
+				}
+			}
+			for s in 0..2 {
+				if let Some(t) = slots[s].take() {
+					let _ = t.close().await;
+				}
+			}
+			if refused {
+				nontrivial += 1;
+				if samples.len() < 3 && len == maxlen {
+					samples.push(format!("\"{:?}\"", ops));
+				}
+			}
+			if let Some(b) = bad {
+				if failures.len() < 5 {
+					failures.push(format!("{{\"steps\":\"{:?}\",\"mismatch\":{:?}}}", ops, b));
+				}
+			}
+		}
+	}
+	println!(
+		"REPLAY-RESULT {{\"driver\":\"{name}\",\"cases\":{cases},\"distinct_nontrivial\":{nontrivial},\"samples\":[{}],\"failures\":[{}]}}",
+		samples.join(","),
+		failures.join(",")
+	);
+	assert!(failures.is_empty());
+}
+
+#[tokio::test(flavor = "multi_thread", worker_threads = 2)]
+async fn exclusive_enum_quick() {
+	exclusive_enum_impl(3, "exclusive_enum_quick").await;
+}
+
+#[tokio::test(flavor = "multi_thread", worker_threads = 2)]
+async fn exclusive_enum_thorough() {
+	exclusive_enum_impl(4, "exclusive_enum_thorough").await;
+}
